@@ -102,6 +102,37 @@ for (const s of job.structs) {
         const call = st.calls.find((k) => k.name === s.owner + "_give_" + s.name.toLowerCase());
         res.recv = { allocs: st.allocs.slice(), args: call ? call.args.map(canonArg) : null };
     } catch (e) { res.errors.push("recv: " + String(e).slice(0, 200)); }
+    // ---- Result / Option wrapped returns: the export (played by a hook) writes payload and flag where Rust's repr(C) puts them
+    res.wrapped = [];
+    for (const w of (s.wrappers || [])) {
+        for (const flag of [1, 0]) {
+            const rec = { w: w.w, flag };
+            const fname = s.owner + "_give_" + w.w + "_" + s.name.toLowerCase();
+            try {
+                st.calls.length = 0; st.allocs.length = 0;
+                st.hooks[fname] = (args) => {
+                    const p = args[0];
+                    rec.ptr_is_alloc = st.allocs.some((a) => a.ptr === p);
+                    const pay = Buffer.from(flag ? w.ok_hex : w.err_hex, "hex");
+                    new Uint8Array(wasm.memory.buffer, p, pay.length).set(pay);
+                    new Uint8Array(wasm.memory.buffer, p + w.flag_off, 1)[0] = flag;
+                    return undefined;
+                };
+                const cname = "give" + w.w.toUpperCase() + s.name;
+                let ret, thrown = null;
+                try { ret = H[cname](); } catch (e) { thrown = e; }
+                rec.allocs = st.allocs.slice();
+                rec.called = st.calls.some((k) => k.name === fname);
+                const arm = flag ? w.ok_kind : w.err_kind;
+                const dec = (x) => arm === "struct" ? (x === null || x === undefined ? null : s.fields.map((f) => canon(f.ft, x[f.name])))
+                    : arm === "en" ? (x === null || x === undefined ? null : { en: x.ffiValue }) : arm === "unit" ? (x === undefined || x === null ? "unit" : { other: String(x) }) : canonArg(x);
+                if (thrown) { rec.thrown = true; rec.cause = thrown.cause === undefined ? { nocause: String(thrown).slice(0, 120) } : dec(thrown.cause); }
+                else { rec.thrown = false; rec.ret = (ret === null) ? null : dec(ret); }
+            } catch (e) { rec.error = String(e).slice(0, 200); }
+            delete st.hooks[fname];
+            res.wrapped.push(rec);
+        }
+    }
     results.push(res);
 }
 process.stdout.write(JSON.stringify(results));
